@@ -43,6 +43,16 @@ func TestDebugReplay(t *testing.T) {
 			fmt.Printf("   row %s attempts=%d attempt_at=%s completed=%v notbefore=%v\n", pl, n, at, c, nb)
 		}
 		rows.Close()
+		rows2, _ := s.Raw.Query("select m.payload, d.expires_at, coalesce(nb.completed_at,'-'), coalesce(nb.expires_at,'-'), coalesce(nbm.payload,'-'), d.subscription_id = coalesce(nb.subscription_id,d.subscription_id) from deliveries d join messages m on m.id=d.message_id left join deliveries nb on nb.id=d.not_before_id left join messages nbm on nbm.id=nb.message_id where d.completed_at is null order by d.published_at")
+		for rows2 != nil && rows2.Next() {
+			var pl, ex, nc, ne, np string
+			var same bool
+			rows2.Scan(&pl, &ex, &nc, &ne, &np, &same)
+			fmt.Printf("   open %s expires=%s notbefore={msg %s completed=%s expires=%s samesub=%v}\n", pl, ex, np, nc, ne, same)
+		}
+		if rows2 != nil {
+			rows2.Close()
+		}
 	}
 	for i, op := range d.Case.Ops {
 		ok := r.Step(op)
@@ -71,4 +81,45 @@ func TestDebugReplay(t *testing.T) {
 		dump()
 	}
 	fmt.Printf("viol=%v diverged=%q\n", r.Viol, r.Diverged)
+}
+
+// TestDebugPair prints the traces of a C15 prune pair (with / without jobs).
+func TestDebugPair(t *testing.T) {
+	p := os.Getenv("VERIF_REPLAY")
+	if p == "" {
+		t.Skip()
+	}
+	b, _ := os.ReadFile(p)
+	var d struct {
+		Case c15Case `json:"case"`
+	}
+	if err := json.Unmarshal(b, &d); err != nil {
+		t.Fatal(err)
+	}
+	s := getSUT(t)
+	defer closeSUT()
+	dump := func(tag string) {
+		rows, _ := s.Raw.Query("select m.payload, s.name, d.attempts, d.attempt_at, d.expires_at, d.completed_at is not null, coalesce(nbm.payload,'-'), coalesce(nb.completed_at,'-') from deliveries d join messages m on m.id=d.message_id join subscriptions s on s.id=d.subscription_id left join deliveries nb on nb.id=d.not_before_id left join messages nbm on nbm.id=nb.message_id order by s.name, d.published_at")
+		for rows != nil && rows.Next() {
+			var pl, sn, at, ex, np, nc string
+			var n int
+			var c bool
+			rows.Scan(&pl, &sn, &n, &at, &ex, &c, &np, &nc)
+			fmt.Printf("   %s row %s on %s attempts=%d attempt_at=%s expires=%s completed=%v notbefore={%s completed=%s}\n", tag, pl, sn, n, at, ex, c, np, nc)
+		}
+		if rows != nil {
+			rows.Close()
+		}
+	}
+	r2 := hist.Replay(s, d.Case.Ops, d.Case.Seed, "NONE")
+	for _, te := range r2.Trace {
+		fmt.Printf("with    %+v  %s\n", te, d.Case.Ops[te.Op])
+	}
+	dump("with")
+	r1 := hist.Replay(s, withoutJobs(d.Case.Ops), d.Case.Seed, "NONE")
+	wo := withoutJobs(d.Case.Ops)
+	for _, te := range r1.Trace {
+		fmt.Printf("without %+v  %s\n", te, wo[te.Op])
+	}
+	dump("without")
 }
